@@ -10,8 +10,11 @@ import vcheck
 def run(ctx):
     ctx.prepare()
     ctx.obligations("NGF.Props.C07")
+    # fragment stage: status truth against Pipeline.gen from ONE scenario (imports NGF.Props.C07 for the decision core)
+    ctx.obligations("NGF.Props.C07Fragment")
     if ctx.tier == "thorough":
         ctx.leanchecker("NGF.Props.C07")
+        ctx.leanchecker("NGF.Props.C07Fragment")
 
     n = 180 if ctx.tier == "quick" else 6000
     lines = []
@@ -29,6 +32,8 @@ def run(ctx):
         lines += ctx.harness(["-seed", ctx.seed, "-n", n]) or []
         # handler stream: batch sequences through the REAL eventHandlerImpl.HandleEventBatch (one line per batch)
         lines += ctx.harness(["-seed", ctx.seed + 104729, "-hseq", 70, "-hb", 5]) or []
+        # fragment stream: scenarios inside the fragment of Model/Pipeline.lean; lines carry the flat scenario
+        lines += ctx.harness(["-seed", ctx.seed + 7919, "-frag", 160]) or []
     else:
         # 16 independent streams
         per = n // 16
@@ -40,6 +45,8 @@ def run(ctx):
             procs.append(subprocess.Popen([binp, "-seed", str(ctx.seed * 1000 + k), "-n", str(per)],
                                           stdout=subprocess.PIPE, text=True))
             procs.append(subprocess.Popen([binp, "-seed", str(ctx.seed * 1000 + 500 + k), "-hseq", "150", "-hb", "6"],
+                                          stdout=subprocess.PIPE, text=True))
+            procs.append(subprocess.Popen([binp, "-seed", str(ctx.seed * 1000 + 800 + k), "-frag", "400"],
                                           stdout=subprocess.PIPE, text=True))
         for p in procs:
             out, _ = p.communicate()
@@ -58,6 +65,54 @@ def run(ctx):
                 d = json.loads(l)
                 ctx.broken(f"model and implementation disagree on statuses of case {d['id']}: {o[:300]}",
                            replay={"case": d["id"], "model": o, "sum": d["sum"], "st": d["st"]})
+
+    # (a') fragment correspondence: statuses computed by Model/PipelineStatus from the SAME Pipeline.Scenario that
+    # Pipeline.gen turns into the configuration (PipelineTie.toFragment of the flat scenario) == real statuses
+    frag_lines = [l for l in lines if '"flat":' in l]
+    frag = {"cases": len(frag_lines), "compared": 0, "in_fragment_wf": 0, "outside": collections.Counter(), "diffs": 0,
+            "routes": 0, "routes_with_status": 0, "parents": 0, "listeners": 0, "ignored_gateways": 0,
+            "invalid_routes": 0, "parents_resolvedrefs_false": 0, "reasons": collections.Counter(),
+            "attached_routes_values": collections.Counter(), "class_state": collections.Counter(),
+            "view": collections.Counter()}
+    fouts = ctx.driver("fragment", frag_lines) if frag_lines else []
+    if frag_lines and len(fouts) != len(frag_lines):
+        ctx.broken(f"fragment driver answered {len(fouts)} lines for {len(frag_lines)} cases")
+    for l, o in zip(frag_lines, fouts):
+        if o.startswith("out "):
+            frag["outside"][o[4:]] += 1
+            continue
+        if o == "skip":
+            continue
+        if not (o.startswith("ok ") or o.startswith("diff ")):
+            ctx.broken(f"fragment driver could not process case {json.loads(l)['id']}: {o[:300]}")
+            continue
+        frag["compared"] += 1
+        stats = o.split(" ## ")[0].split()[1:]
+        kv = dict(x.split("=", 1) for x in stats if "=" in x)
+        for key, field in (("routes", "routes"), ("withStatus", "routes_with_status"), ("parents", "parents"),
+                           ("listeners", "listeners"), ("ignored", "ignored_gateways"), ("invalidRoutes", "invalid_routes"),
+                           ("unresolved", "parents_resolvedrefs_false")):
+            frag[field] += int(kv.get(key, 0))
+        for item in filter(None, kv.get("reasons", "").split(",")):
+            name, _, cnt = item.rpartition(":")
+            frag["reasons"][name] += int(cnt)
+        for item in filter(None, kv.get("attached", "").split(",")):
+            name, _, cnt = item.rpartition(":")
+            frag["attached_routes_values"][name] += int(cnt)
+        frag["class_state"][kv.get("class", "?")] += 1
+        frag["view"][kv.get("view", "?")] += 1
+        if kv.get("inFragment") == "true":
+            frag["in_fragment_wf"] += 1
+        if o.startswith("diff "):
+            frag["diffs"] += 1
+            if frag["diffs"] <= 3:
+                d = json.loads(l)
+                ctx.broken(f"PipelineStatus (statuses from the Pipeline scenario) and the implementation disagree on case "
+                           f"{d['id']}: {o[:600]}",
+                           replay={"case": d["id"], "fragment": o, "flat": d["flat"], "st": d["st"], "sum": d["sum"],
+                                   "replay_cmd": "harness/cmd/c07 -seed S -frag N -only I (id = f<S>-<I>-<ok|err>)"})
+    if ctx.tier == "quick" and getattr(ctx, "harness_ok", False) and frag["compared"] < 100:
+        ctx.broken(f"fragment stream: only {frag['compared']} of {frag['cases']} cases were inside the fragment")
 
     # (b) the property itself, evaluated by the Lean judge on real configuration + real statuses
     verdicts = ctx.driver("judge", lines) if lines else []
@@ -115,7 +170,9 @@ def run(ctx):
                 "graph builder, configuration builder, status.Prepare*Requests and status setters; non-trivial = distinct "
                 "(objects, reload outcome) with a winning Gateway that has listeners and at least one route in the graph; plus a "
                 "handler stream: batch sequences {ClusterStateChange, EndpointsOnlyChange, NoChange} x {ok, ReplaceFiles error, "
-                "Reload error, Plus API error} through the REAL eventHandlerImpl.HandleEventBatch, judged after every batch",
+                "Reload error, Plus API error} through the REAL eventHandlerImpl.HandleEventBatch, judged after every batch; plus a "
+                "fragment stream: scenarios inside the fragment of Model/Pipeline.lean whose real statuses are compared with "
+                "Model/PipelineStatus (see fragment_stream) and judged like all others",
         "samples": samples,
         "traces_validated_against_impl": len(lines) - diffs,
         "correspondence_diffs": diffs,
@@ -125,12 +182,32 @@ def run(ctx):
         "panics": panics,
         "generator_tags": dict(tags),
         "handler_batches": dict(hbatches),
+        "fragment_stream": {
+            "what": "in-fragment scenarios (C02's fragment generator + several parentRefs incl. ignored/foreign/missing Gateways and "
+                    "non-Gateway kinds, section-name misses, namespace-not-allowed, hostname misses, all-rules-invalid routes, "
+                    "missing/foreign GatewayClass): REAL statuses == PipelineStatus.routeParentStatuses / gatewayStatus / ignored "
+                    "Gateways of PipelineTie.toFragment(flat scenario) — type, status, reason, observedGeneration, entry order, "
+                    "attachedRoutes; the reason of ResolvedRefs=False is masked",
+            "cases": frag["cases"], "compared": frag["compared"], "diffs": frag["diffs"],
+            "wellformed_inFragment": frag["in_fragment_wf"], "outside_fragment": dict(frag["outside"]),
+            "routes": frag["routes"], "routes_with_status": frag["routes_with_status"],
+            "parent_entries_compared": frag["parents"], "listeners_compared": frag["listeners"],
+            "ignored_gateways_compared": frag["ignored_gateways"], "invalid_routes": frag["invalid_routes"],
+            "parent_entries_resolvedrefs_false": frag["parents_resolvedrefs_false"],
+            "accepted_reason_histogram": dict(frag["reasons"]),
+            "attachedRoutes_value_histogram": dict(frag["attached_routes_values"]),
+            "gatewayclass_state": dict(frag["class_state"]),
+            "fragment_view_vs_C02_toFragment": dict(frag["view"]),
+        },
         "routes_in_graph_histogram": {str(k): v for k, v in sorted(sizes.items())},
     }, assumptions=[
         "Kubernetes API server: objects are admissible (CRD schema + CEL of gateway-api v1.2.1 experimental channel, after "
         "defaulting); the harness applies allowedRoutes defaulting and the parentRefs / listener uniqueness CEL rules",
         "the status objects are fresh (no entries of other controllers); C08 covers merging with existing entries",
         "HTTPRoute and GRPCRoute names are disjoint in the generator (dataplane MatchRule.Source carries no kind)",
+        "fragment theorems (NGF.Props.C07Fragment): Pipeline.inFragment, parentsOK (no empty section name) and noDupRefs (no "
+        "(Gateway, section) named twice — the known finding duplicate-parentref is the excluded region); Route.valid / Backend.valid "
+        "of the fragment scenario come from the Lean oracle's reading of the objects, cross-checked by the status correspondence",
         "handler stream: generator, file manager and NGINX runtime manager are stubs whose outcome the harness chooses; the "
         "truth 'NGINX failed to take the last applied configuration' is what those stubs experienced",
     ], trusted=[
@@ -138,4 +215,7 @@ def run(ctx):
         "intersection/TLS hostname claims) over the objects, combined with the REAL dataplane.Configuration",
         "facts of the real graph used by the judge: winning gateway's attachable listeners, per-route 'some BackendRef invalid' "
         "and 'extension filter unresolved', per-listener route maps (only to name the difference)",
+        "fragment stream: harness/c02.Flatten (mechanical projection of the objects) and PipelineTie.toFragment / "
+        "PipelineStatusTie.toFragmentV (which scenarios are inside the fragment); C02's translation validation ties Pipeline.gen of the "
+        "same scenario to the real http.conf",
     ])
